@@ -410,6 +410,95 @@ func TestC18Concurrent(t *testing.T) {
 	pbt.Run(t, pbt.Spec[ConcCase]{Prop: "C18", Test: "TestC18Concurrent", Engine: "logbuf", Gen: genConc, Check: checkConc})
 }
 
+// ---------------------------------------------------------------- two writers (stdout and stderr pumps)
+
+// TwoWCase: a process writes through two pumps at once; every follower must see the lines in the
+// very order in which the log holds them.
+type TwoWCase struct {
+	Lines     int `json:"lines"`      // per writer
+	Followers int `json:"followers"`  // 1..3
+	SlowEvery int `json:"slow_every"` // follower 0 yields the processor on every n-th line (0: never)
+}
+
+type recFollower struct {
+	mu   sync.Mutex
+	got  []string
+	slow int
+	n    int
+}
+
+func checkTwoWriters(c TwoWCase) pbt.Verdict {
+	var v pbt.Verdict
+	b := pclog.NewLogBuffer(4 * c.Lines)
+	var fols []*recFollower
+	for i := 0; i < c.Followers; i++ {
+		f := &recFollower{}
+		if i == 0 {
+			f.slow = c.SlowEvery
+		}
+		fols = append(fols, f)
+		b.GetLogsAndSubscribe(pclog.NewConnector(func(l []string) {}, func(s string) (int, error) {
+			f.mu.Lock()
+			f.got = append(f.got, s)
+			f.n++
+			slow := f.slow > 0 && f.n%f.slow == 0
+			f.mu.Unlock()
+			if slow {
+				runtime.Gosched()
+			}
+			return len(s), nil
+		}, 0))
+	}
+	var wg sync.WaitGroup
+	for _, tag := range []string{"out", "err"} {
+		wg.Add(1)
+		go func(tag string) {
+			defer wg.Done()
+			for i := 0; i < c.Lines; i++ {
+				b.Write(fmt.Sprintf("%s-%d", tag, i))
+			}
+		}(tag)
+	}
+	wg.Wait()
+	stored := append([]string(nil), b.GetLogRange(b.GetLogLength(), 0)...)
+	if len(stored) != 2*c.Lines {
+		v.Violations = append(v.Violations, fmt.Sprintf("two writers wrote %d lines, the log holds %d", 2*c.Lines, len(stored)))
+		return v
+	}
+	interleaved := false
+	for i := 1; i < len(stored); i++ {
+		if stored[i][:3] != stored[i-1][:3] {
+			interleaved = true
+		}
+	}
+	for k, f := range fols {
+		f.mu.Lock()
+		got := append([]string(nil), f.got...)
+		f.mu.Unlock()
+		if !eq(got, stored) {
+			pos := 0
+			for pos < len(got) && pos < len(stored) && got[pos] == stored[pos] {
+				pos++
+			}
+			v.Violations = append(v.Violations, fmt.Sprintf("follower %d saw the lines in another order than the log holds them (or lost some): first difference at position %d: follower %v, log %v (%d vs %d lines)", k, pos, headTail(got[pos:]), headTail(stored[pos:]), len(got), len(stored)))
+			return v
+		}
+	}
+	v.NonTrivial = interleaved
+	if interleaved {
+		v.Labels = append(v.Labels, "writers-interleaved")
+	}
+	return v
+}
+
+func TestC18TwoWriters(t *testing.T) {
+	pbt.Run(t, pbt.Spec[TwoWCase]{Prop: "C18", Test: "TestC18TwoWriters", Engine: "logbuf",
+		Gen: func(t *rapid.T) TwoWCase {
+			return TwoWCase{Lines: pbt.Pick(t, []int{50, 400, 2000}), Followers: pbt.Range(t, 1, 3), SlowEvery: pbt.Pick(t, []int{0, 1, 7})}
+		},
+		Check: checkTwoWriters})
+}
+
 // ---------------------------------------------------------------- websocket followers
 
 // logProject serves exactly what the websocket handler needs.
